@@ -3,6 +3,7 @@
 package harness
 
 import (
+	"strings"
 	"context"
 	"fmt"
 	"sync"
@@ -17,6 +18,7 @@ type partObjCfg struct {
 	Name  string   `json:"name"`
 	Num   int      `json:"num"`
 	Match []string `json:"match"`
+	Ci    bool     `json:"ci"` // the library's string matcher is built case-insensitive
 	Built int      `json:"built"`
 }
 
@@ -27,6 +29,7 @@ type partCfg struct {
 	Objs    map[string]partObjCfg `json:"objs"`
 	Init    []string              `json:"init"`
 	Variant map[string]string     `json:"variant"`
+	Lower   map[string]string     `json:"lower,omitempty"`
 }
 
 type partOp struct {
@@ -137,15 +140,29 @@ func keyCtx(kind, key string) context.Context {
 	return context.WithValue(context.Background(), matchers.StringPredicateContextKey, key)
 }
 
-func multiMatch(keys []string) func(ctx context.Context) bool {
-	set := map[string]bool{}
+// multiMatch is the disjunction of the library's own string matchers, one per key.
+func multiMatch(keys []string, ci bool) func(ctx context.Context) bool {
+	var ms []func(ctx context.Context) bool
 	for _, k := range keys {
-		set[k] = true
+		ms = append(ms, matchers.StringPredicateMatcher(k, ci))
 	}
 	return func(ctx context.Context) bool {
-		v, _ := ctx.Value(matchers.StringPredicateContextKey).(string)
-		return set[v]
+		for _, m := range ms {
+			if m(ctx) {
+				return true
+			}
+		}
+		return false
 	}
+}
+
+// lowerMap is the case folding the model uses for case-insensitive matchers (TLA+ has no string functions).
+func lowerMap(keys ...string) map[string]string {
+	m := map[string]string{}
+	for _, k := range keys {
+		m[k] = strings.ToLower(k)
+	}
+	return m
 }
 
 func newPartSUT(cfg partCfg) (*partSUT, error) {
@@ -162,11 +179,7 @@ func newPartSUT(cfg partCfg) (*partSUT, error) {
 			}
 			s.lobj[id] = strategy.NewLookupPartitionWithMetricRegistry(o.Name, pct, int32(built), s.reg)
 		} else {
-			if len(o.Match) == 1 {
-				s.pobj[id] = strategy.NewPredicatePartitionWithMetricRegistry(id, pct, s.watch(id, matchers.StringPredicateMatcher(o.Match[0], false)), s.reg)
-			} else {
-				s.pobj[id] = strategy.NewPredicatePartitionWithMetricRegistry(id, pct, s.watch(id, multiMatch(o.Match)), s.reg)
-			}
+			s.pobj[id] = strategy.NewPredicatePartitionWithMetricRegistry(id, pct, s.watch(id, multiMatch(o.Match, o.Ci)), s.reg)
 		}
 	}
 	var err error
